@@ -21,7 +21,7 @@ func isStoreCall(cs engine.CallSite, names ...string) bool {
 		name = cc.Method.Name()
 	} else if sc := cc.StaticCallee(); sc != nil && engine.RecvNamed(sc) != nil {
 		recvT = engine.RecvNamed(sc).Obj().Name()
-		name = sc.Name()
+		name = engine.ShortName(sc)
 		if !strings.HasSuffix(engine.PkgPathOf(sc), "/store") {
 			return false
 		}
@@ -277,7 +277,7 @@ func c07(c *Ctx) {
 		for _, want := range []string{"deleteAllMessagesMarkedDeleted", "cleanupStaleStoreData"} {
 			var call ssa.Instruction
 			for _, cs := range engine.Calls(nu) {
-				if sc := cs.Common().StaticCallee(); sc != nil && sc.Name() == want {
+				if sc := cs.Common().StaticCallee(); sc != nil && engine.ShortName(sc) == want {
 					call = cs.Instr
 				}
 			}
